@@ -4,6 +4,7 @@ package loadaware
 
 import (
 	"context"
+	"encoding/json"
 	"fmt"
 	"testing"
 	"time"
@@ -150,12 +151,19 @@ func c08GenNode(r *kit.Rand, env *c08Env, name string) (*corev1.Node, *extension
 	}
 	alloc[corev1.ResourcePods] = c08Q(corev1.ResourcePods, 110)
 	node.Status.Allocatable = alloc
-	if r.Pct(20) && cpu > 0 {
-		// amplified node: status.allocatable is the amplified figure, the annotation holds the raw one
+	if r.Pct(25) && cpu > 0 {
+		// amplified node: status.allocatable is the amplified figure, the annotation holds the raw one.
+		// Either dimension may be the only amplified one (the ratio annotation is per resource).
 		raw := corev1.ResourceList{corev1.ResourceCPU: c08Q(corev1.ResourceCPU, cpu)}
-		alloc[corev1.ResourceCPU] = c08Q(corev1.ResourceCPU, cpu*3/2)
-		if r.Bool() && mem > 0 {
+		mode := r.Weighted(40, 30, 30) // cpu only listed / cpu+memory listed / memory-only amplified
+		if mode != 2 || mem <= 0 {
+			alloc[corev1.ResourceCPU] = c08Q(corev1.ResourceCPU, cpu*3/2)
+		}
+		if mode >= 1 && mem > 0 {
 			raw[corev1.ResourceMemory] = c08Q(corev1.ResourceMemory, mem)
+			if mode == 2 || r.Bool() {
+				alloc[corev1.ResourceMemory] = c08Q(corev1.ResourceMemory, mem*2)
+			}
 		}
 		extension.SetNodeRawAllocatable(node, raw)
 	}
@@ -300,9 +308,24 @@ func TestVerifC08Filter(t *testing.T) {
 		node, custom := c08GenNode(r, env, nodeName)
 		ni := framework.NewNodeInfo()
 		ni.SetNode(node)
-		allocList, err := env.freshEst().EstimateNode(node.DeepCopy())
-		if err != nil {
-			c.Harness("EstimateNode: %v", err)
+		// the allocatable the thresholds are percentages of, decoded by the harness itself: the raw
+		// (un-amplified) figure for every dimension the raw-allocatable annotation lists, else status.allocatable
+		allocList := node.Status.Allocatable.DeepCopy()
+		if s, ok := node.Annotations[extension.AnnotationNodeRawAllocatable]; ok {
+			rawList := corev1.ResourceList{}
+			if err := json.Unmarshal([]byte(s), &rawList); err != nil {
+				c.Harness("raw allocatable annotation: %v", err)
+			}
+			amplified := false
+			for k, v := range rawList {
+				if cur, ok := allocList[k]; !ok || cur.Cmp(v) != 0 {
+					amplified = true
+				}
+				allocList[k] = v
+			}
+			if amplified {
+				c.Count("amplified_nodes", 1)
+			}
 		}
 		alloc := c08Vec(env.vec, allocList)
 		c.Op("args: %s", env.argsString())
